@@ -177,7 +177,7 @@ def product_cases():
 
 
 def run_shard(ctx):
-    n = 400 if ctx.tier == "quick" else 5000
+    n = 400 if ctx.tier == "quick" else 20000
 
     def body(case):
         cl = run_case(case, set())
